@@ -10,7 +10,11 @@ def _lazy(name):
 
 
 structural('effects', ['C14', 'C20'], _lazy('effects'))
-structural('module-state', ['C14', 'C20'], _lazy('module_state'))
+# Soundness side condition of modular contract reasoning, hence attached to EVERY property: a contract speaks about a
+# function's arguments and the heap reachable from them, so a function that keeps state in module-level variables between
+# calls (a hand-rolled cache, a lazily extended table) is outside every contract's frame -- its result may depend on the
+# call history, which no pre/postcondition here can see.
+structural('module-state', ['C%02d' % i for i in range(1, 21)], _lazy('module_state'))
 structural('memoised-results', ['C14', 'C19'], _lazy('cached_results_not_mutated'))
 structural('pool-api', ['C14'], _lazy('pool_api'))
 structural('jit-flags', ['C15'], _lazy('numba_decorators'))
